@@ -309,6 +309,13 @@ def prepare_dump(data: IOData, allow_changes: bool, filename: str) -> IOData:
         raise PrepareDumpError("The Molekel format requires an orbital basis set.", filename)
     if data.mo.kind == "generalized":
         raise PrepareDumpError("Cannot write Molekel file with generalized orbitals.", filename)
+    if data.atcorenums is not None and not np.array_equal(data.atcorenums, data.atnums):
+        # The number of electrons is derived from the atomic numbers and the charge
+        # when loading a Molekel file, which fails with effective core charges.
+        raise PrepareDumpError(
+            "The Molekel format does not support effective core charges (atcorenums != atnums).",
+            filename,
+        )
     data = prepare_unrestricted_aminusb(data, allow_changes, filename, "Molekel")
     return prepare_segmented(data, False, allow_changes, filename, "Molekel")
 
